@@ -302,7 +302,10 @@ Definition gen_agrees (N root : nat) (t : ztree) : bool :=
 
 Definition agree (c : case) : bool :=
   match c with
-  | CRound _ t ro tm direct bytes binary =>
+  | CRound expect_wf t ro tm direct bytes binary =>
+      (* a sender built by NewTree (also: NewTree, AddChild.., NewTree again) stores at every
+         node what the model recomputes from the keys of the node's CURRENT subtree *)
+      (negb expect_wf || node_eqb (with_aggs Z.add (t_root t)) (t_root t)) &&
       tm_eqb (to_marshal t) tm &&
       res_agrees (Some t) (make_err_class tm ro) (zmake tm ro) direct &&
       res_agrees (Some t) (make_err_class tm ro) (zfrom_bytes (Some tm) ro) bytes &&
@@ -320,7 +323,7 @@ Definition agree (c : case) : bool :=
       | DNone => res_agrees None 6 Err obs
       | DCrash => res_agrees None 0 Crash obs
       end
-  | CProp t views => forallb (view_agrees t) views
+  | CProp t views => node_eqb (with_aggs Z.add (t_root t)) (t_root t) && forallb (view_agrees t) views
   | CHist ops snaps => replay init ops snaps
   | CRace acts snaps => rreplay rinit acts snaps
   | CGen N root t => gen_agrees N root t
